@@ -457,7 +457,6 @@ class NetworkGraph(AbstractBaseIR):
         # Attach buffer equations and variables to the source operator
         op_info['equations'] += buffer_eqs
         op_info['variables'].update(var_dict)
-        op_info['output'] = buf_out
 
         # Update intra-node successor inputs (mirrors _add_edge_buffer)
         for succ in node_ir.op_graph.succ[op]:
@@ -687,7 +686,6 @@ class NetworkGraph(AbstractBaseIR):
             )
         op_info['equations'] += buffer_eqs
         op_info['variables'].update(var_dict)
-        op_info['output'] = f"{var}_buffered{buffer_id}"
 
         # update input information of node operators connected to this operator
         for succ in node_ir.op_graph.succ[op]:
